@@ -66,6 +66,68 @@ CHECKS = {
             'joins the workers. Each history runs under seeded yields/sleeps at the hook points; the number of distinct interleaving signatures is reported.',
             'Liveness is decided as bounded progress (in-harness watchdog + driver stall oracle). Held on the interleavings actually produced.',
             'DESIGN.md section 2 C19'),
+    'C02': ('exploration', 'independent specification-derived encoders (PBF, o5m/o5c, XML, OPL) with every free encoding choice seeded; decoded result compared with the model (ASan/UBSan builds, one with 8-byte input pieces)',
+            'A model data set D is encoded by harness encoders written from the format specifications, varying dense/plain nodes, blob compression, granularity, offsets, '
+            'date granularity, absent optional fields, unknown fields of all wire types at every message level, field order, string table layout, indexdata, every '
+            'BlobHeader length 11..65535 (thorough), blocks up to 32 MiB, o5m inline/table references incl. table wrap-around, resets, delta chains, tiny files and tiny '
+            'final datasets, XML attribute order/quotes/references/change sections, OPL field order/escapes/line ends; the real Reader must return exactly D, and the four '
+            'readers must agree pairwise on the same D.',
+            'Trusted: the harness encoders (self-checked by the framing parser and by cross-format agreement). Not generated: unpacked encoding of packed fields, '
+            'o5m string pairs of 244..256 bytes (spec ambiguity), XML value 4294967295 (pinned as rejected by a unit test).',
+            'DESIGN.md section 2 C02'),
+    'C04': ('exploration', 'reference byte-image + model-list oracle over seeded builder/buffer histories with an exhaustive capacity sweep (ASan/UBSan, with and without NDEBUG)',
+            'Each seeded history of builder and buffer operations is executed in a large non-growing buffer (reference image) and then with every initial capacity 64, 72, ... '
+            'peak+8 under auto_grow no/yes/internal and through CallbackBuffer: reserved bytes per operation, committed byte image (nested buffers oldest first), an '
+            'explicit-bounds item walker, accessor-level comparison, buffer_is_full exactly where predicted, purge callbacks, swap/move/clear/rollback semantics; any '
+            'ASan report (stale pointer across growth) or assertion on a legal history is a violation.',
+            'Trusted: the model/walker in harness/c04_buffer.cpp. Not judged: capacity after automatic growth, moved-from buffers.',
+            'DESIGN.md section 2 C04'),
+    'C06': ('exploration', 'metamorphic oracle (one-piece run of the same bytes) with a piece-delivering Decompressor registered through CompressionFactory; real fd decompressors with tiny input buffers and wrapped short read(2)s (ASan/UBSan builds)',
+            'For seed files in XML, osc, PBF (dense/plain/locations-on-ways), OPL and o5m, valid and truncated: every single cut and every pair of cuts for files up to '
+            '90 (quick) / 256 (thorough) bytes, fixed piece sizes {1,2,3,5,7,8,9,10,11,4095,4096,4097}, seeded random cut sequences; header, objects or error type and '
+            'message must equal the one-piece run. The real plain/gzip/bzip2 fd paths run with input_buffer_size 1/7/4096 and read(2) returning 1..n bytes.',
+            'Trusted: nothing but the equality oracle. Across the memory and fd code paths only success/failure, error type and data are compared (their error texts differ by design).',
+            'DESIGN.md section 2 C06'),
+    'C10': ('exploration', 'constructive generator with known validity + exact integer geometry oracle (__int128 predicates) on every produced area; metamorphic variants (ASan/UBSan build)',
+            'Arrangements built on a jittered, linearly mapped integer lattice (nesting, islands, up to 100 touching points, shared edges, duplicate segments) and nested '
+            'star/orthogonal polygons, 40% with an injected crossing/open ring/overlap, are cut into ways in up to 9 variants (order, direction, re-cutting, roles, node ids, '
+            'way vs relation interface) and assembled: rings closed with >= 4 points, no crossing/overlap, inner inside its directly enclosing outer ring, fixed opposite '
+            'orientation, segment conservation mod 2; valid inputs must be assembled, invalid ones rejected with a matching problem report; verdict and canonical ring set '
+            'equal across variants.',
+            'Trusted: brute-force re-check of the generator ground truth. Not judged: T-junctions, > 100 touching points. Known finding: recursion limit of the ring-joining search.',
+            'DESIGN.md section 2 C10'),
+    'C12': ('exploration', 'std::map reference model over seeded insertion histories for all eight factory-created map types, raw parsing and reload of dumps (ASan/UBSan builds, one with hook H5)',
+            'The same history of distinct ids (dense, sparse, 2^33/2^63, boundaries k*2^16, k*2^20, k*1310720, growth steps) goes into every registered map type; get and '
+            'get_noexcept on inserted ids, neighbours, boundaries and never-inserted ids are compared with the model; dump_as_list/dump_as_array are parsed raw and reloaded '
+            'through the file-based types; FlexMem switch with H5=4096 in quick and across the real 0xffffff threshold in thorough; NodeLocationsForWays with 8x8 type pairs, '
+            'nine node orders, positive and negative ids.',
+            'Trusted: the std::map model. Not judged: clear(), size(), used_memory().',
+            'DESIGN.md section 2 C12'),
+    'C14': ('exploration', 'exhaustive enumeration with the real parsers as left inverse (opl_parse_string, expat), structural-character scan, exact-size heap blocks / guard pages for over-reads (ASan/UBSan + -O2 builds)',
+            'Every Unicode scalar value (alone and in context), every sequence up to length 4 over a structural alphabet, random long strings and writer-level blocks are '
+            'escaped by the OPL/XML writers and parsed back; escaped forms are scanned for raw structural characters and checked pairwise distinct; every byte string of '
+            'length 0..4 (strided in quick) is escaped from an exact-size block: no read past the NUL and an exception exactly when a well-formed prefix ends in a cut-off sequence.',
+            'Trusted: RFC 3629 encoder/walker in the harness, expat. Not judged: exceptions for other invalid UTF-8 (overlong, stray continuation), the byte-transparent XML escaper for the cut-off clause.',
+            'DESIGN.md section 2 C14'),
+    'C15': ('exploration', 'step-by-step comparison with std::set / pair-set / map models over seeded operation histories (ASan/UBSan build, GC hook counter)',
+            'IdSetDense<uint32_t|uint64_t, chunk_bits 3|4|8|22>, IdSetSmall and nwr_array histories (set/unset/check_and_set/get/size/iteration/copy/move/swap/clear) with ids '
+            'at every chunk border and at the top of T; RelationsMapStash with 32/64-bit mixes and all three index builders with lookups of recorded, truncated-alias and absent '
+            'keys; ItemStash histories with manual and automatic garbage collection (hook counter), byte-identical content behind every live handle, space reclaimed.',
+            'Trusted: the standard-container models.',
+            'DESIGN.md section 2 C15'),
+    'C17': ('exploration', 'independent WKB/EWKB/hex, WKT and GeoJSON decoders + exact rounding reference over enumerated and seeded geometries (ASan/UBSan build)',
+            'Every node list of length 0..5 over {A, A+1 unit, C, undefined, out of range, half undefined} and seeded lists up to 400 nodes / areas with 1..5 outer x 0..4 inner '
+            'rings, x {unique, all} x {forward, backward} x {identity, Mercator} x precision 0..17: each encoding is decoded by the harness, counts must match the encoded elements and '
+            'consume the bytes exactly, coordinates must be the object\'s (exactly for identity, 1e-9 relative for Mercator), text numbers correctly rounded, all encodings agree, '
+            'degenerate inputs rejected with geometry_error/invalid_location; double2string is tested directly against exact integer arithmetic.',
+            'Trusted: the harness decoders and rounding reference. Not judged: area rings with < 4 points, duplicate removal inside create_multipolygon, latitudes beyond MERCATOR_MAX_LAT.',
+            'DESIGN.md section 2 C17'),
+    'C20': ('exploration', 'ordered callback log compared with a dispatch model; exhaustive enumeration of item sequences, handler lists and version histories (ASan/UBSan builds, one with hook H4)',
+            'All 402k item-type sequences of length 0..5 over 13 item kinds x 30 handler kinds (static, DynamicHandler, const/non-const lambdas, ChainHandler) in lists of length 1..4 x 21 '
+            'sources (Buffer, const Buffer, iterator ranges, InputIterator over mock and real Readers): osm_object then exactly the type callback per item and handler in order, one flush at the end; '
+            'all 114k sorted version histories through DiffIterator/apply_diff incl. Readers with 4 KiB parser buffers: every version once, prev/next/first/last exact.',
+            'Trusted: the dispatch model. Not judged: whether removed items are visited, forwarding of osm_object/sub-item callbacks by DynamicHandler/ChainHandler.',
+            'DESIGN.md section 2 C20'),
 }
 
 NOT_YET = 'check not built yet (work in progress, see DESIGN.md section 6)'
